@@ -1478,6 +1478,35 @@ func c05Paths(c C) {
 			fmt.Sprintf("PreRunBlock fills %v from the result; CheckBlock returns true only under equality of %v", fl, cm))
 		c.Guards("app.(*LinkApplication).CheckBlock", "return-true", retTrue, G{"process-ok", "*.isOk"})
 	}
+	// the result of a block starts from COPIES of the previous block's candidates: processBlockEvidence
+	// mutates them (score, produce info); with shared objects the proposer (PreRunBlock then CheckBlock)
+	// and a validator (CheckBlock once) would apply the evidence a different number of times
+	{
+		sc := p.Func("types", "TxsResult.SetCandidates")
+		okMap, okList, nMap := true, false, 0
+		ir.Instrs(sc, func(in ssa.Instruction) {
+			switch x := in.(type) {
+			case *ssa.MapUpdate:
+				nMap++
+				if !ir.Match("types.CandidateInOrder.Copy(candidates[*])", ir.Render(x.Value)) {
+					okMap = false
+				}
+			case *ssa.Call:
+				if bi, ok := x.Call.Value.(*ssa.Builtin); ok && bi.Name() == "append" && len(x.Call.Args) == 2 {
+					if ir.Match("[types.CandidateInOrder.Copy(candidates[*])]", ir.Render(x.Call.Args[1])) {
+						okList = true
+					}
+				}
+			}
+		})
+		c.R.Check("K4", "paths/types.(*TxsResult).SetCandidates/copies", p.Pos(sc.Pos()), okMap && okList && nMap == 1, "list and map of the new result hold Copy() of each previous candidate, never the previous object itself")
+		cp := p.Func("types", "CandidateInOrder.Copy")
+		sum := ir.DefaultEffects(p).Summarize(cp)
+		c.R.Check("K4", "paths/types.(*CandidateInOrder).Copy/fresh", p.Pos(cp.Pos()), sum.RetFresh && sum.Global == "" && len(sum.Params) == 0, fmt.Sprintf("Copy returns freshly allocated memory and writes nothing else (retFresh %v, global %q)", sum.RetFresh, sum.Global))
+		for _, call := range ir.Calls(pb, "types.TxsResult.SetCandidates") {
+			c.R.Check("K5", "paths/processBlock/candidates-from-last-result", p.InstrPos(call.(ssa.Instruction)), Arg(call, 1) == "app.lastTxsResult.Candidates", "the new result is seeded from the last committed result: "+Arg(call, 1))
+		}
+	}
 	// the preRun flag controls only the signature pre-check
 	var pr *ssa.Parameter
 	for _, q := range pb.Params {
